@@ -593,3 +593,57 @@ def single_encoder(ctx):
                               'the peak is about twice what the estimator returns at every independent chunk start')
     if n == 0:
         ctx.info('no-in-place-replacement', '-', 'no writer method rebuilds its encoder')
+
+
+@rule('SINGLE-DECODER', ['C17'], floor=1)
+def single_decoder(ctx):
+    """Decoder-side twin of SINGLE-ENCODER. `lzma2_get_memory_usage` counts one LZMA decoder (probability tables; 24 KiB of
+    literal coders for lc + lp = 4). A reader method that rebuilds its decoder for new properties and stores it into a
+    field of `self` must have released the previous one first: on the way to the constructor call a `Drop` of that field
+    (what `self.f = None`, `take()` or `mem::replace` compile to) dominates the call. Otherwise both are alive until the
+    assignment drops the old one and the peak exceeds the estimate by one decoder (measured: 8 187 bytes for every
+    dictionary size, findings/C17-lzma2-props-two-decoders.rs; repaired in 6dae350)."""
+    from lzlint.core import field_path
+    F = ctx.facts
+    n = 0
+    for f in F.fns:
+        if f.kind == 'closure' or not f.self_adt or 'Reader' not in last_seg(f.self_adt):
+            continue
+        if not (f.arg_count >= 1 and f.local_ty(1).startswith('&mut')):
+            continue
+        for bi, t, c in f.calls():
+            if not (c.name == 'new' and any(g.self_adt and last_seg(g.self_adt) == 'LZMADecoder' for g in F.resolve_callee(c))):
+                continue
+            # the field the result ends up in: first store of a self field reachable from the call's target
+            tgt = t.get('target')
+            region = f.reach_from([tgt]) | {tgt} if tgt is not None else set()
+            flds = set()
+            for b in region:
+                for s in f.blocks[b]['stmts']:
+                    if s['k'] == 'assign' and s['lhs']['l'] == 1 and s['lhs']['p']:
+                        fp = field_path(s['lhs'])
+                        if fp and len(fp) == 1 and 'LZMADecoder' in str(s['lhs'].get('ty', '')):
+                            flds.add(fp[0])
+            if not flds:
+                continue
+            n += 1
+            key = '%s:old-decoder-released-first' % f.key
+            fld = sorted(flds)[0]
+            released = False
+            for b2, blk in enumerate(f.blocks):
+                t2 = blk['term']
+                if blk['cleanup'] or b2 == bi:
+                    continue
+                if t2['k'] == 'drop' and tuple(field_path(t2.get('place') or t2.get('p') or {}) or ()) == (fld,) and f.dominates(b2, bi):
+                    released = True
+                if t2['k'] == 'call':
+                    c2 = Callee(callee_of(t2)) if callee_of(t2) else None
+                    if c2 and c2.is_('Option::take', 'mem::replace', 'mem::take') and f.dominates(b2, bi):
+                        released = True
+            if released:
+                ctx.ok(key, f.loc(bi), 'self.%s is dropped before the new decoder is built' % fld)
+            else:
+                ctx.violation(key, f.loc(bi), 'a new LZMADecoder is built while self.%s still holds the previous one (dropped only by the assignment): '
+                              'peak = estimate + one decoder at every properties reset' % fld)
+    if n == 0:
+        ctx.anchor_missing('a reader method that builds an LZMADecoder into a field of self')
